@@ -819,6 +819,44 @@ def connect_with_followers(ctx, rng, prop, nbytes, nflows=1):
         sc.close()
 
 
+def eof_meets_connect(ctx, rng, prop, reply_len):
+    """The application connects and closes its sending side without sending anything; the server's connect() is still
+    in progress when CONNECT and the end-of-stream arrive, and completes in the very wake-up in which the server
+    handler first looks at that end-of-stream.  The connection exists: the end-of-stream must reach the destination
+    as a half-close, and the destination's reply must travel back whole.  (Had the handler seen the end-of-stream
+    while the connect was still pending, giving the connect up would be the code's intended mechanism.)"""
+    o = Opts(nflows=1, steps=0)
+    sc = Scenario(rng, o)
+    try:
+        t = sc.t
+        full = Io('ok', 'd65536', 's65536', False)
+        sc.do(('accept',))
+        sc.do(('ae', 0))
+        for _ in range(2):
+            sc.do(('round', 'c', 0, 'auto', full))            # the client frames the end-of-stream
+        sc.do(('deliver', 's', 'ok'))                          # PING
+        sc.do(('deliver', 's', 'e115:0'))                      # CONNECT: connect() in progress
+        while t.cmux.outbuf and not sc.stop:
+            sc.do(('deliver', 's', 'ok'))                      # the end-of-stream
+        sc.do(('cb', 's', 0, full))                            # the wake-up in which the connect completes
+        sc.bare.clear()
+        sc.env_write(0, 'dst', payload(rng, reply_len, 5))
+        sc.do(('de', 0))
+        q = sc.drain()
+        if not sc.stop:
+            oracle_eof_order(ctx, sc, prop, 'end')
+            oracle_complete(ctx, sc, prop, q)
+            if q:
+                oracle_teardown(ctx, sc, prop)
+                oracle_quiet(ctx, sc, prop)
+            else:
+                report(ctx, sc, '%s:liveness:no-quiescence-within-bound' % prop, 0, 'drain', 'quiescent', 'still changing')
+        oracle_alive(ctx, sc, prop, 'run')
+        return sc.s.ins, sc.s.outs
+    finally:
+        sc.close()
+
+
 def reader_closed_keeps_sending(ctx, rng, prop, which):
     """One endpoint stops receiving (the tunnel's send to it fails with EPIPE) but keeps sending: that ends ONE
     direction; everything the endpoint sends afterwards must still reach its peer, followed by its end-of-stream.
